@@ -53,6 +53,13 @@ MUTANTS = [
        "        return self.get_grant_renew_time_time()\n", "C26.1"),
     mk("original-expiry-vs-age", EXP,
        "            if original_expiration_time > now:", "            if original_expiration_time > age:", "C26.1"),
+    mk("renewal-hack-assumes-30-days", LEASE,
+       "        return self._expiration_time - 31*24*60*60\n", "        return self._expiration_time - 30*24*60*60\n", "C26.1"),
+    mk("granted-duration-raised", SERVER,
+       "DEFAULT_RENEWAL_TIME = 31 * 24 * 60 * 60\n", "DEFAULT_RENEWAL_TIME = 60 * 24 * 60 * 60\n", "C26.1"),
+    mk("lease-granted-as-duration", SERVER,
+       "        new_expire_time = self._clock.seconds() + DEFAULT_RENEWAL_TIME\n        found_buckets = False\n",
+       "        new_expire_time = DEFAULT_RENEWAL_TIME\n        found_buckets = False\n", "C26.1"),
     # ---- C26.2 decision table
     mk("age-comparison-flipped", EXP, "                if age > age_limit:", "                if age < age_limit:", "C26.2"),
     mk("cutoff-uses-expiration-time", EXP,
@@ -105,6 +112,22 @@ MUTANTS = [
     mk("mutable-remaining-reset", MUT,
        "                    self._write_lease_record(f, leasenum, blank_lease)\n                    modified += 1\n",
        "                    self._write_lease_record(f, leasenum, blank_lease)\n                    modified += 1\n                    remaining = 0\n",
+       "C26.4"),
+    mk("immutable-remaining-not-rebuilt", IMM,
+       "        if num_leases_removed:\n            # pack and write out",
+       "        if num_leases_removed > 1:\n            # pack and write out", "C26.4"),
+    mk("mutable-match-not-blanked", MUT,
+       "                    self._write_lease_record(f, leasenum, blank_lease)\n                    modified += 1\n",
+       "                    modified += 1\n", "C26.4"),
+    mk("immutable-survivors-not-rewritten", IMM,
+       "                for i, lease in enumerate(leases):\n                    self._write_lease_record(f, i, lease)\n                self._write_num_leases(f, len(leases))\n",
+       "                self._write_num_leases(f, len(leases))\n", "C26.4"),
+    mk("immutable-count-not-written", IMM,
+       "                self._write_num_leases(f, len(leases))\n                self._truncate_leases(f, len(leases))\n",
+       "                self._truncate_leases(f, len(leases))\n", "ANALYSIS-ERROR"),
+    mk("mutable-blank-marker-changed", MUT,
+       "        blank_lease = LeaseInfo(owner_num=0,\n                                renew_secret=b\"\\x00\"*32,\n                                cancel_secret=b\"\\x00\"*32,\n                                expiration_time=0,\n                                nodeid=b\"\\x00\"*20)\n        with open(self.home, 'rb+') as f:\n            for (leasenum,lease) in self._enumerate_leases(f):\n                accepting_nodeids.add(lease.nodeid)\n                if lease.is_cancel_secret",
+       "        blank_lease = LeaseInfo(owner_num=1,\n                                renew_secret=b\"\\x00\"*32,\n                                cancel_secret=b\"\\x00\"*32,\n                                expiration_time=0,\n                                nodeid=b\"\\x00\"*20)\n        with open(self.home, 'rb+') as f:\n            for (leasenum,lease) in self._enumerate_leases(f):\n                accepting_nodeids.add(lease.nodeid)\n                if lease.is_cancel_secret",
        "C26.4"),
     # ---- C26.5 configuration plumbing
     mk("client-override-gets-cutoff", CLIENT,
@@ -159,6 +182,9 @@ MUTANTS = [
        "        self.lease_checker = klass(self, statefile, historyfile,\n                                   expiration_enabled, expiration_mode,\n                                   expiration_override_lease_duration,\n                                   expiration_cutoff_date,\n                                   expiration_sharetypes)",
        "        self.lease_checker = klass(self, statefile, historyfile,\n                                   expiration_enabled, expiration_mode,\n                                   cutoff_date=expiration_cutoff_date,\n                                   override_lease_duration=expiration_override_lease_duration,\n                                   sharetypes=expiration_sharetypes)",
        None),
+    mk("benign-count-expired", EXP,
+       "        would_keep_share = [1, 1, 1, sharetype]\n",
+       "        would_keep_share = [1, 1, 1, sharetype]\n        n_expired = len(expired_leases_configured)\n", None),
     # ---- vanished anchors
     mk("vanish-process-share", EXP, "    def process_share(self, sharefilename):", "    def process_shareX(self, sharefilename):",
        "ANALYSIS-ERROR"),
